@@ -9,7 +9,7 @@
     shows that this is the model's [lad].  The loop over terms / coefficient tensors
     (nditer order, `fstring @ clist[j]`, `op += coeff * fstring`), adjoint(), + and @ are the
     hand-written model (Qib.Fermi.FermiModel), tied to the code by the correspondence run. *)
-From Qib Require Import Fermi.FermiTerms Base.Inst.
+From Qib Require Import Fermi.FermiTerms Fermi.FermiLoop Base.Inst.
 From Run Require Import GenFieldOp.
 
 Section Bridge.
@@ -30,6 +30,10 @@ Section Bridge.
   Definition code_lad (n : nat) (o : ifo) : BMx K :=
     if fst o then code_cmat n (Z.of_nat (snd o)) 0
     else (if gen_fo_alist_is_adjoint then madj (code_cmat n (Z.of_nat (snd o)) 0) else mzero).
+
+  (** skipping a zero coefficient = adding zero times anything *)
+  Lemma skip_ok (a x : K) : a = a + 0 * x.
+  Proof. ring. Qed.
 
   Lemma site_I i j : (j < i)%Z -> m2eq (m2l (gen_fo_site (K:=K) i j)) sI2.
   Proof.
@@ -125,6 +129,33 @@ Theorem C10_term_matrix_is_weighted_sum_of_ordered_products :
     = isum n (length (tpat t)) (fun idx => smul (tcf t idx) (oprod n (lad n) (combine (tpat t) idx) r c)).
 Proof. intros K L n t r c Hr Hc. apply (TM_oprod n (lad n) t r c Hr Hc). Qed.
 Print Assumptions C10_term_matrix_is_weighted_sum_of_ordered_products.
+
+(** 5b. ... and THE CODE'S LOOP computes exactly that.  [gen_fo_loop] is as_matrix's accumulation loop translated
+        statement by statement from the source on every run (gen/fermi.py assembly_loop): `for term in self.terms`,
+        `for coeff in np.nditer(term.coeffs)`, the test `if coeff == 0: continue` (here [isz], any test that is
+        only true of zero), `fstring = identity`, `fstring = fstring @ clist[j] / alist[j]` selected by the operator
+        type, `op += coeff * fstring`; [code_lad] are the ladder matrices built by the translated Kronecker loop
+        (theorem 0).  So the factor order, the create/annihilate selection, the skip test and the accumulation are
+        re-read from the source; a test that skips NON-zero coefficients (np.isclose, abs(coeff) < eps, ...) is
+        refused by the translator and, if forced through, falsifies the hypothesis on [isz]. *)
+Theorem C10_code_loop_is_weighted_sum_of_ordered_products :
+  forall (K : Scalar) (L : ScalarLaws K) (isz : K -> bool) n (op : list (term K)),
+    (forall c, isz c = true -> c = s0) ->
+    meq n (gen_fo_loop n isz (fun j => code_lad n (true, j)) (fun j => code_lad n (false, j)) op)
+          (op_matrix n op).
+Proof.
+  intros K L isz n op Hz. unfold gen_fo_loop, op_matrix.
+  apply (loop_is_op_matrix n (lad n) (fun o => code_lad n o)).
+  - intros o Ho. apply C10_code_ladder_matrices; assumption.
+  - intros acc t r c Hr Hc.
+    apply (fold_left_madd _ (fun idx => mscal (tcf t idx)
+             (oprod_from n (fun o => code_lad n o) mid (combine (tpat t) idx)))).
+    intros acc' idx _. cbv zeta.
+    rewrite (fold_left_oprod n _ (fun o => code_lad n o)) by (intros a [[|] j]; reflexivity).
+    destruct (isz (tcf t idx)) eqn:E; [|reflexivity].
+    apply Hz in E. rewrite E. unfold mscal. apply skip_ok.
+Qed.
+Print Assumptions C10_code_loop_is_weighted_sum_of_ordered_products.
 
 (** 6. adjoint() has the adjoint matrix, A + B the sum, A @ B the product *)
 Theorem C10_adjoint :
